@@ -151,6 +151,15 @@ def run(run, replay=None):
         [("register", "Guess", "あ", "かない"), ("probe",)],
         [("conv", "normal", "しんかこか"), ("confirm", "last", "1"), ("conv", "normal", "しんかこ")],
     ]
+    # readings the user dictionary can store (text-format reading class) but the conversion trie cannot index: accepted,
+    # saved, and the server must still start on that user data
+    import re as _re
+    _m = _re.search(r"def alphabet : List Nat := \[([0-9, ]*)\]", open(os.path.join(cl.LEAN, "Chokan/Gen/Server.lean")).read())
+    alpha = {int(x) for x in _m.group(1).split(",")} if _m else set()
+    klass = [c for c in range(0x3041, 0x3097)] + [0x30FC] + list(range(ord("a"), ord("z") + 1))
+    outside = [chr(c) for c in klass if alpha and c not in alpha] or ["ゎ", "ゔ", "ゕ"]
+    fixed.append([op for ch in outside[:6] for op in (("register", rng.pick(["CommonNoun", "ProperNoun", "Guess"]), "く" + ch + "じ", "火事"),
+                                                       ("conv", "normal", "く" + ch + "じ"))] + [("probe",)])
     hists = fixed + [gen_history(rng, thorough) for _ in range(60 if thorough else 10)]
     fails = []
     stats = {"histories": len(hists), "probes": 0, "restarts": 0, "malformed": 0, "max_latency_s": 0.0}
